@@ -225,11 +225,10 @@ func (p *wkbParser) parseLineString(ctype CoordinatesType) (LineString, error) {
 	if err != nil {
 		return LineString{}, err
 	}
-	floats := make([]float64, int(n)*ctype.Dimension())
-
-	if len(p.body) < 8*len(floats) {
-		return LineString{}, wkbSyntaxError{"unexpected EOF"}
+	if err := p.checkCount(n, 8*ctype.Dimension()); err != nil {
+		return LineString{}, err
 	}
+	floats := make([]float64, int(n)*ctype.Dimension())
 
 	var seqData []byte
 	if p.no {
@@ -244,6 +243,16 @@ func (p *wkbParser) parseLineString(ctype CoordinatesType) (LineString, error) {
 
 	seq := NewSequence(floats, ctype)
 	return NewLineString(seq), nil
+}
+
+// checkCount checks that the remaining input is long enough to hold n elements
+// of at least minSize bytes each. It must be called before allocating memory
+// that is proportional to a count read from the (untrusted) input.
+func (p *wkbParser) checkCount(n uint32, minSize int) error {
+	if uint64(n)*uint64(minSize) > uint64(len(p.body)) {
+		return wkbSyntaxError{"unexpected EOF"}
+	}
+	return nil
 }
 
 // bytesAsFloats reinterprets the bytes slice as a float64 slice in a similar
@@ -274,6 +283,9 @@ func (p *wkbParser) parsePolygon(ctype CoordinatesType) (Polygon, error) {
 	if n == 0 {
 		return Polygon{}.ForceCoordinatesType(ctype), nil
 	}
+	if err := p.checkCount(n, 4); err != nil {
+		return Polygon{}, err
+	}
 	rings := make([]LineString, n)
 	for i := range rings {
 		rings[i], err = p.parseLineString(ctype)
@@ -291,6 +303,9 @@ func (p *wkbParser) parseMultiPoint(ctype CoordinatesType) (MultiPoint, error) {
 	}
 	if n == 0 {
 		return MultiPoint{}.ForceCoordinatesType(ctype), nil
+	}
+	if err := p.checkCount(n, 5); err != nil {
+		return MultiPoint{}, err
 	}
 	pts := make([]Point, n)
 	for i := uint32(0); i < n; i++ {
@@ -314,6 +329,9 @@ func (p *wkbParser) parseMultiLineString(ctype CoordinatesType) (MultiLineString
 	if n == 0 {
 		return MultiLineString{}.ForceCoordinatesType(ctype), nil
 	}
+	if err := p.checkCount(n, 5); err != nil {
+		return MultiLineString{}, err
+	}
 	lss := make([]LineString, n)
 	for i := uint32(0); i < n; i++ {
 		geom, err := p.inner()
@@ -336,6 +354,9 @@ func (p *wkbParser) parseMultiPolygon(ctype CoordinatesType) (MultiPolygon, erro
 	if n == 0 {
 		return MultiPolygon{}.ForceCoordinatesType(ctype), nil
 	}
+	if err := p.checkCount(n, 5); err != nil {
+		return MultiPolygon{}, err
+	}
 	polys := make([]Polygon, n)
 	for i := uint32(0); i < n; i++ {
 		geom, err := p.inner()
@@ -357,6 +378,9 @@ func (p *wkbParser) parseGeometryCollection(ctype CoordinatesType) (GeometryColl
 	}
 	if n == 0 {
 		return GeometryCollection{}.ForceCoordinatesType(ctype), nil
+	}
+	if err := p.checkCount(n, 5); err != nil {
+		return GeometryCollection{}, err
 	}
 	geoms := make([]Geometry, n)
 	for i := uint32(0); i < n; i++ {
